@@ -262,7 +262,7 @@ def flow(ctx):
                 res, lines = f.result()
                 take("MC_C11C12_%s.cfg" % (("quick_" + n) if n in QUICK else n), res, lines, "exhaustive, design variants")
         if not ctx.quick:
-            inputs = random_inputs(ctx.rng, 20000)
+            inputs = random_inputs(ctx.rng, 60000)
             ifile = os.path.join(ctx.workdir, "%s-depth3-terms.ndjson" % tag)
             vlib.write_ndjson(ifile, inputs)
             res, lines = _tlc_vectors(ctx, "MC_C11C12_file.cfg", env={"TERMS": ifile}, workers=8)
